@@ -118,19 +118,19 @@ class MeshLine1(MeshSimplex, Mesh):
 
     def element_finder(self, mapping=None):
 
-        ix = np.argsort(self.p[0])
-        maxt = self.t[np.argmax(self.p[0, self.t], 0),
-                      np.arange(self.t.shape[1])]
+        # end points of the elements, sorted by the left end points
+        ends = np.sort(self.p[0, self.t], axis=0)
+        ix = np.argsort(ends[0])
+        left, right = ends[0, ix], ends[1, ix]
 
         def finder(x):
-            # bring endpoint inside for np.digitize
-            xin = np.array(x, dtype=np.float64)
-            xin[x == self.p[0, ix[-1]]] = self.p[0, ix[-2:]].mean()
-            elems = np.nonzero(ix[np.digitize(xin, self.p[0, ix])][:, None]
-                               == maxt)[1].astype(np.int32)
-            if len(elems) < len(x):
+            x = np.array(x, dtype=np.float64)
+            # the last element that starts at or before the point: a vertex
+            # belongs to the element on its right if there is one
+            k = np.searchsorted(left, x, side='right') - 1
+            if ((k < 0) | (x > right[k])).any():
                 raise ValueError("Point is outside of the mesh.")
-            return elems
+            return ix[k].astype(np.int32)
 
         return finder
 
